@@ -10,6 +10,7 @@ import MosnVerif.Model.Relay
 import MosnVerif.Model.Http1Msg
 import MosnVerif.Model.RelayStart
 import MosnVerif.Model.Http1Method
+import MosnVerif.Model.Http1Framing
 import MosnVerif.Model.Reencode
 import MosnVerif.Model.ReencodeSpec
 /-!
@@ -376,6 +377,53 @@ def relayUpCase (mode gsS csS ssS : String) (impl : List String) : String :=
     s!"{if agree then "A" else "D"} {if spec then "S" else "V"} {m1} {m2}"
   | _, _, _, _ => "E E bad-relayup-case"
 
+/-! ### HTTP/1 framing (`Model/Http1Framing.lean`)
+
+  `http1m q <METHOD> <none|cl0|cl|chunked|chunked0> <hopset> <bodyHex>
+       => <METHOD> <te0|te1> <cl-|clN> <hop headers seen> <ok|bad> <bodyHex> <i0|i1> <rSTATUS|rnone> | incomplete <METHOD> <te> <cl> | lost`
+  `http1m r <METHOD> <STATUS> <cl0|cl|chunked|chunked0|close|none|hcl|hchunked> <bodyHex>
+       => <STATUS> <te-|techunked|teidentity> <cl-|clN> <conn-|connclose> <ok|bad> <bodyHex> <complete|incomplete> | lost`
+  Framing depends on the body's length only: the model is run on a body of zeros of that length. -/
+def hexLen (h : String) : Nat := if h == "-" then 0 else h.length / 2
+def clTok : Option Nat → String
+  | none => "cl-"
+  | some n => s!"cl{n}"
+
+def http1FramingReq (method shape hop body : String) (impl : List String) : String :=
+  let n := hexLen body
+  let b : List UInt8 := List.replicate n 0
+  let ignoreBody := method == "GET" || method == "HEAD"
+  let (g, w) := Http1Framing.forwardReq ignoreBody (n == 0) (Http1Framing.parsedReq shape n) b
+  let teTok := if g.te then "te1" else "te0"
+  let model : List String :=
+    if Http1Framing.recv g w == some b then
+      [method, teTok, clTok g.cl, Http1Framing.forwardedHops hop, "ok", body, (if hop == "expect" then "i1" else "i0"), "r200"]
+    else ["incomplete", method, teTok, clTok g.cl]
+  let spec := match impl with
+    | [gm, te, cl, _, e2e, gb, _, r] =>
+      gm == method && te == "te0" && ((cl == "cl-" && n == 0) || cl == s!"cl{n}") && e2e == "ok" && gb == body && r == "r200"
+    | _ => false
+  s!"{if impl == model then "A" else "D"} {if spec then "S" else "V"} {" ".intercalate model}"
+
+def http1FramingResp (method status framing body : String) (impl : List String) : String :=
+  let n := hexLen body
+  let b : List UInt8 := List.replicate n 0
+  let head := method == "HEAD"
+  let st := status.toNat?.getD 0
+  let model : List String :=
+    match Http1Framing.forwardResp head st (Http1Framing.parsedResp st framing n) b with
+    | none => ["lost"]
+    | some (g, w) =>
+      [status, (match g.te with | .none => "te-" | .chunked => "techunked" | .identity => "teidentity"), clTok g.cl,
+       (if g.close then "connclose" else "conn-"), "ok", (if w.isEmpty then "-" else body),
+       (if (Http1Framing.recvResp head st g w).isSome then "complete" else "incomplete")]
+  let spec := match impl with
+    | [gs, _, cl, _, e2e, gb, comp] =>
+      gs == status && comp == "complete" && e2e == "ok" && gb == (if head || status == "204" || status == "304" then "-" else body) &&
+        (framing != "hcl" || cl == "cl1234")
+    | _ => false
+  s!"{if impl == model then "A" else "D"} {if spec then "S" else "V"} {" ".intercalate model}"
+
 /-! ### HTTP/1 method
 
   `http1m p <METHOD> <none|cl0|cl|chunked|chunked0> <bodyHex> => <METHOD> <bodyHex> | lost`   through the proxy
@@ -389,6 +437,8 @@ def http1MethodCase (toks impl : List String) : String :=
   | ["d", _, what, body], [gm, gb] =>
     let model := Http1Method.converted (what == "data")
     fmt (gm == model && gb == body) (gm == Http1Method.defaultRule (what == "data") && gb == body && (what == "data") == (body != "-")) model
+  | ["q", method, shape, hop, body], _ => http1FramingReq method shape hop body impl
+  | ["r", method, status, framing, body], _ => http1FramingResp method status framing body impl
   | _, ["lost"] => "D V lost"
   | _, _ => "E E bad-http1m-case"
 
